@@ -115,6 +115,12 @@ func LoadPrelude(dir string) *Prelude {
 			if s.list == nil || len(s.list) < 3 {
 				continue
 			}
+			if name == "fieldring" {
+				// alternative interpretation of the field vocabulary: never selected implicitly
+				if _, exists := p.sigs[s.list[1].atom]; exists {
+					continue
+				}
+			}
 			switch s.list[0].atom {
 			case "declare-fun":
 				if len(s.list) == 4 {
